@@ -8,6 +8,7 @@ package zzverif
 
 import (
 	"encoding/json"
+	"sync/atomic"
 	"fmt"
 	"os"
 	"strconv"
@@ -50,6 +51,7 @@ var NowFn func() time.Time
 func Start(r *Replay) *State {
 	cur = &State{Replay: r, Observed: map[string]string{}, thorough: os.Getenv("VERIF_TIER") == "thorough"}
 	NowFn = nil
+	atomicHook, atomicBudget, inAtomicHook = nil, 0, false
 	return cur
 }
 
@@ -127,7 +129,6 @@ func ObserveBool(name string, v bool)  { cur.Observed[name] = strconv.FormatBool
 func ObserveStr(name string, v string) { cur.Observed[name] = v }
 
 func MapOrderNondet(on bool)          {}
-func OnAtomic(f func(), budget int)   {}
 func Unreachable()                    { panic(AssumeFalse{}) }
 func Thorough() bool                  { return cur != nil && cur.thorough }
 
@@ -150,6 +151,14 @@ func Since(t time.Time) time.Duration { return Now().Sub(t) }
 // Instant draws an arbitrary instant in [1970-01-01, +2^36 s] with any nanosecond.
 func Instant(name string) time.Time {
 	s := IntRange(name+".sec", 0, 1<<36)
+	n := IntRange(name+".nsec", 0, 999999999)
+	return time.Unix(s, n)
+}
+
+// InstantNear draws an instant in [1970-01-01, +2^32 s] (differences between two
+// such instants never saturate time.Duration).
+func InstantNear(name string) time.Time {
+	s := IntRange(name+".sec", 0, 1<<32)
 	n := IntRange(name+".nsec", 0, 999999999)
 	return time.Unix(s, n)
 }
@@ -200,4 +209,36 @@ func IteTime(c bool, a, b time.Time) time.Time {
 		return a
 	}
 	return b
+}
+
+// Interference at atomic operations: call sites of sync/atomic in the counter
+// are redirected here by the overlay rewriter. Before each operation the
+// harness-supplied interference function may run (a drawn Bool), at most
+// `budget` times: this models other goroutines' effects on the shared counter.
+var (
+	atomicHook   func()
+	atomicBudget int
+	inAtomicHook bool
+)
+
+func OnAtomic(f func(), budget int) { atomicHook, atomicBudget = f, budget }
+
+func atomicPre() {
+	if atomicHook == nil || inAtomicHook || atomicBudget <= 0 {
+		return
+	}
+	if Bool("interfere") {
+		atomicBudget--
+		inAtomicHook = true
+		atomicHook()
+		inAtomicHook = false
+	}
+}
+
+func AtomicAddInt64(p *int64, d int64) int64 { atomicPre(); return atomic.AddInt64(p, d) }
+func AtomicLoadInt64(p *int64) int64         { atomicPre(); return atomic.LoadInt64(p) }
+func AtomicStoreInt64(p *int64, v int64)     { atomicPre(); atomic.StoreInt64(p, v) }
+func AtomicCompareAndSwapInt64(p *int64, o, n int64) bool {
+	atomicPre()
+	return atomic.CompareAndSwapInt64(p, o, n)
 }
